@@ -89,7 +89,7 @@ func init() {
 	// several modules contribute to one tree: an imported grouping (idents imp*), a submodule
 	// (idents s*), own augments into each of them
 	Schemas["multi"] = `module multi { namespace "urn:multi"; prefix mu; import mimp { prefix i; } include msub; revision 0;
-  container c { leaf own { type string; } uses i:g; container in { uses i:g2; leaf own2 { type string; } } }
+  container c { leaf own { type string; } uses i:g; container in { uses i:g2; leaf own2 { type string; } } leaf sidr { type identityref { base sub-base; } } }
   list l { key k; leaf k { type string; } uses i:g2; container lc { uses i:g; } }
   uses i:g3;
   augment "/c" { leaf aug1 { type string; } }
@@ -105,7 +105,8 @@ func init() {
   grouping g3 { container imptop { leaf impt { type string; } list impl { key impk; leaf impk { type string; } leaf impv { type string; } } } }
 }`,
 		"msub": `submodule msub { belongs-to multi { prefix mu; } import mimp { prefix i; }
-  container sc { leaf sl { type string; } uses i:g2; }
+  identity sub-base; identity sub-id { base sub-base; }
+  container sc { leaf sl { type string; } uses i:g2; leaf ssidr { type identityref { base sub-base; } } }
   augment "/c" { leaf sa { type string; } }
 }`,
 	}
